@@ -2,5 +2,33 @@ SPEC = {
     "id": "C02",
     "components": [
         {"comp": "sim_c02", "module": "QV.Sys.MonC02", "quick": 80, "thorough": 2500},
+        {"comp": "sim_c02r", "module": "QV.Sys.MonRecovery", "quick": 96, "thorough": 3000},
     ],
+    "assumptions": [
+        "RTT-derived durations (pto_base, max_ack_delay, loss_delay) and the pacer's answer are oracle values: the theorems quantify over all of them; the pacer contract deadline > now is an explicit premise of C02_pacing_deadline_in_future (Pacer::delay does not guarantee it: now + (unscaled_delay / 5) * 4 equals now for a deficit of a few bytes at a large window)",
+        "path migration is not modelled (a new PathData restarts the in-flight counters; the probe and the model both use the current path's count)",
+        "the Recovery model is tied to the code by trace validation only (no op-by-op differential hook): Sys/MonRecovery evaluates the proved invariants on probe snapshots after every drive of every real connection",
+    ],
+}
+
+MANIFEST = {
+    "text": ("PARTIAL. Proved in Coq for ALL operation sequences of the loss-detection model (Model/Recovery.v: packets sent, acks, "
+             "datagram receipt incl. the was_anti_amplification_blocked re-arm, key installation/discard, Retry, handshake completion, "
+             "close, handle_timeout with loss-time and PTO branches) and the send-gate model (Model/SendGate.v): "
+             "timer_armed_when_needed (open, not anti-amplification blocked, timer needed => LossDetection armed, except on a "
+             "connection that has sent nothing yet; receipt of any datagram while blocked re-arms), the refutation of the same "
+             "invariant for the code before repo commit 81a82d1 (Established with 1-RTT packets in flight and no timer: a real "
+             "wedge, replayed on the real endpoints) and its weaker form with the ghost flag; pto_backoff_bounded (deadline = last "
+             "ack-eliciting send + (pto_base [+ max_ack_delay]) * 2^min(pto_count, MAX_BACKOFF_EXPONENT), positive and bounded; "
+             "constant from the compiled crate); probes are never blocked by congestion or pacing and are sent when there is "
+             "anti-amplification budget; blocked-by-pacing arms Timer::Pacing (in the future under the pacer contract). "
+             "Proved only under the bookkeeping well-formedness hypothesis wf (kept as _partial, full statements as Definitions): "
+             "pto_yields_probe (probe space has keys) and the readable per-space form of timer_armed_when_needed. "
+             "NOT proved: credit_update_not_withheld / blocked_writer_renotified (flow-control half; only exercised by the completion "
+             "monitor and mutation-tested), idle_progress, and the end-to-end bounded-time claim fair_loss_completes (stated as a "
+             "Definition): completion under fair loss is OBSERVED on sampled schedules (Sys/MonC02: every event-driven workload under "
+             "loss/dup/reorder/drop masks/small windows/pacing/key updates/0-RTT ends quiescent with every stream finished), and the "
+             "timer invariants are checked on the probe snapshot after every drive of every real connection (Sys/MonRecovery)."),
+    "note": ("Trusted: Coq kernel + vm_compute; hand-written models whose agreement with the code is sampled by trace validation, "
+             "not proved; the simulator and probe hook; extraction (ExtrOcamlBasic); python driver. No axioms."),
 }
